@@ -266,7 +266,7 @@ class Interp:
             fn = f.__func__
             if isinstance(fn, IFunc) or self.node_of(fn) is not None:
                 return self.call_value(fn, [f.__self__] + list(args), kwargs)
-            mm = _MODELS.get(id(fn))
+            mm = _MODELS.get(id(fn)) or _MODELS.get(id(f))
             if mm is not None:
                 return mm(self, f, args, kwargs)
             if has_sym(args) or has_sym(kwargs):
